@@ -80,6 +80,12 @@ func (s Segment) Check(params index.Params) error {
 	for {
 		msg, nextPosition, err := log.Read(position)
 		if errors.Is(err, io.EOF) {
+			// the end of the file in the middle of a message header is read as EOF too
+			if partial, err := partialTail(log, position); err != nil {
+				return err
+			} else if partial {
+				return errPartialTail
+			}
 			break
 		} else if err != nil {
 			return err
@@ -124,6 +130,12 @@ func (s Segment) Recover(params index.Params) error {
 	for {
 		msg, nextPosition, err := log.Read(position)
 		if errors.Is(err, io.EOF) {
+			// the end of the file in the middle of a message header is read as EOF too
+			if partial, err := partialTail(log, position); err != nil {
+				return err
+			} else if partial {
+				corrupted = true
+			}
 			break
 		} else if errors.Is(err, message.ErrCorrupted) {
 			corrupted = true
@@ -190,6 +202,17 @@ func (s Segment) Recover(params index.Params) error {
 	}
 
 	return nil
+}
+
+var errPartialTail = fmt.Errorf("%w: partial message at the end", message.ErrCorrupted)
+
+// partialTail checks if there are leftover bytes after the last complete message
+func partialTail(log *message.Reader, position int64) (bool, error) {
+	size, err := log.Size()
+	if err != nil {
+		return false, err
+	}
+	return position < size, nil
 }
 
 func (s Segment) NeedsReindex() (bool, error) {
